@@ -1548,6 +1548,23 @@ class Engine:
             self.frame.env.clear()
             self.frame.env.update(saved)
             return out
+        src = it.fields["nodes"] if isinstance(it, Rec) and "nodes" in it.fields and "adj" in it.fields else it
+        if isinstance(src, SDict) and not isinstance(src, SDefaultDict) and isinstance(node.key, ast.Name) and isinstance(g.target, ast.Name) \
+                and node.key.id == g.target.id and len(src.k.sorts()) == 1:
+            # {x: f(x) for x in d}: same key set as d, values given point-wise (f is evaluated under the hypothesis that x is a key)
+            kx = z3.Const(f"_dck{node.lineno}", key_sort_of(src.k))
+            saved = dict(self.frame.env)
+            self.assign(g.target, kx)
+            n_alt, n_pc = len(self.alternatives), len(self.pc)
+            self.pc.append(z3.Select(src.dom, kx))
+            vv = self.ev(node.value)
+            del self.pc[n_pc:]
+            if len(self.alternatives) != n_alt:         # forced choices (one side infeasible) are fine, real forks are not
+                raise Unsupported("branching inside a dict comprehension over symbolic data")
+            self.frame.env.clear()
+            self.frame.env.update(saved)
+            vt = type_of(vv)
+            return SDict(src.k, vt, src.dom, [z3.Lambda([kx], ops.term(f) if not is_sym(f) else f) for f in vt.flat(vv)])
         xs = self.as_sequence(it)
         i = z3.Int(f"_dc{node.lineno}")
         saved = dict(self.frame.env)
